@@ -5,6 +5,7 @@ CONSTANTS MaxSize = 7
  MaxAtoms = 3
  AtomKinds = {"A", "E", "L", "F", "P", "N", "B", "M"}
  LongKinds = {"A", "L", "F"}
+ DeclAtoms = 2
  Variants <- VariantsQuick
  ExactOccursCheck = TRUE
  AnnotVarCheck = TRUE
